@@ -251,3 +251,85 @@ def REWIRE(K=0, horizon=6, ops=None):
         ops = [('upstream', 'M2', ['S']), ('upstream', 'K', ['M1', 'M2']), ('upstream', 'K2', ['M2']),
                ('upstream', 'K', []), ('upstream', 'K2', ['M1'])]
     return spec(f'REWIRE[K{K}]', devs, horizon, ops, K)
+
+
+def FANOUT(K=0, horizon=6, ops=None):
+    devs = [src('S', 1), buf('B', ['S'], 2), proc('M1', ['B'], 2), proc('M2', ['B'], 3), sink('K', ['M1', 'M2'])]
+    if ops is None:
+        ops = [('fail', 'M1', 0), ('restore', 'M1'), ('block', 'M2', True), ('block', 'M2', False)]
+    return spec(f'FANOUT[K{K}]', devs, horizon, ops, K)
+
+
+def FAN3(K=0, horizon=8, ops=None):
+    devs = [src('S', 1), proc('M1', ['S'], 3), proc('M2', ['S'], 2), proc('M3', ['S'], 4), sink('K', ['M1', 'M2', 'M3'])]
+    return spec(f'FAN3[K{K}]', devs, horizon, ops or [('block', 'M2', True), ('block', 'M2', False)], K)
+
+
+def DELAY01(K=0, horizon=1.0, ops=None):
+    '''Deliberately non-dyadic: exercises the one-ulp clause of the minimum delay.'''
+    devs = [src('S', 0.1), buf('B', ['S'], 2, 0.1), proc('M', ['B'], 0.3), sink('K', ['M'])]
+    if ops is None:
+        ops = [('block', 'M', True), ('block', 'M', False)]
+    return spec(f'DELAY01[K{K}]', devs, horizon, ops, K, positions=['pre', 'end'])
+
+
+def CYCLES(K=0, horizon=7, ops=None):
+    wo = {'x': [1, 1.5, 3], 'z': [0, 0, 0]}
+    devs = [src('S', 1), proc('M1', ['S'], 2, wo=wo, cycles=[2, 1, 0.5, 1], offsets=[0, -2, 0.5, 0]),
+            sink('K', ['M1']), maint(1)]
+    if ops is None:
+        ops = [('fail', 'M1', 0), ('fail', 'M1', 1), ('wo', 'M1', 'x'), ('wo', 'M1', 'z'),
+               ('shutdown', 'M1'), ('restore', 'M1')]
+    return spec(f'CYCLES[K{K}]', devs, horizon, ops, K)
+
+
+def CYCLES2(K=0, horizon=6, ops=None):
+    devs = [src('S', 0.5), hand('H', ['S'], 1, cycles=[1, 0, 2], offsets=[0.5, 0, -1]),
+            proc('P', ['H'], 1, offsets=[0, 1, -0.5]), sink('K', ['P'], 1)]
+    if ops is None:
+        ops = [('shutdown', 'P'), ('restore', 'P'), ('fail', 'P', 0), ('cycle', 'P', 2), ('cycle', 'H', 0)]
+    return spec(f'CYCLES2[K{K}]', devs, horizon, ops, K)
+
+
+def GATEGRP(K=0, horizon=5, ops=None):
+    devs = [proc('M', [], 1), group('G', ['M']), src('S', 1, qualities=[1, 0, 1, 1, 0]),
+            gate('G1', ['S'], 'q_ge'), gate('G2', ['S'], 'q_lt'),
+            path('a', 'G', ['G1']), path('b', 'G', ['G2']), sink('K1', ['a']), sink('K2', ['b'], 2)]
+    if ops is None:
+        ops = [('fail', 'M', 0), ('restore', 'M'), ('block', 'b', True), ('block', 'b', False)]
+    return spec(f'GATEGRP[K{K}]', devs, horizon, ops, K)
+
+
+def RES_MAINT(K=0, horizon=5, ops=None):
+    wo = {'x': [1, 1.5, 0]}
+    devs = [src('S', 1), proc('M1', ['S'], 2, resources={'r': 1}, wo=wo), proc('M2', ['S'], 1, resources={'r': 1}),
+            sink('K', ['M1', 'M2']), maint(1)]
+    if ops is None:
+        ops = [('wo', 'M1', 'x'), ('fail', 'M1', 0), ('restore', 'M1'), ('addres', 'r', -1), ('addres', 'r', 1)]
+    return spec(f'RESMAINT[K{K}]', devs, horizon, ops, K, pools={'r': 1})
+
+
+def BLOCKED_OUT(K=0, horizon=6, ops=None):
+    devs = [src('S', 1), proc('M1', ['S'], 1), sink('K', ['M1'], 3)]
+    if ops is None:
+        ops = [('fail', 'M1', 0), ('shutdown', 'M1'), ('restore', 'M1')]
+    s = spec(f'BLOCKEDOUT[K{K}]', devs, horizon, ops, K)
+    s['probes'] = 3
+    return s
+
+
+def VALUE(K=0, horizon=6, ops=None):
+    wo = {'x': [1, 1, 4], 'f': [0, 0, 0]}
+    devs = [src('S', 1, values=[5, 3, 0]), proc('P1', ['S'], 1, dv=2, value=7), proc('P2', ['P1'], 2, dv=-1, wo=wo, auto_repair='x'),
+            sink('K', ['P2']), maint(1, value=10)]
+    if ops is None:
+        ops = [('fail', 'P2', 0), ('wo', 'P2', 'x'), ('wo', 'P2', 'f'), ('fail', 'P1', 0), ('restore', 'P1')]
+    return spec(f'VALUE[K{K}]', devs, horizon, ops, K)
+
+
+def VALUE_BATCH(K=0, horizon=5, ops=None):
+    devs = [src('S', 1, pattern=[2, None], values=[5, 3, 1]), batcher('U', ['S'], None), proc('P', ['U'], 0.5, dv=1),
+            batcher('PB', ['P'], 2), sink('K', ['PB'])]
+    if ops is None:
+        ops = [('fail', 'P', 0), ('restore', 'P')]
+    return spec(f'VALUEBATCH[K{K}]', devs, horizon, ops, K)
